@@ -6,5 +6,5 @@ PROP = dict(
         level_note="Trusted: the fault-injecting sink (harness code), the repo's readers for the fault-free readability check. The lake part injects failures into every storage write step of Branch.Load over the harness's in-memory engine. Not covered: arrows/parquet writers, failures of the sink's Close.",
         technique="property-based testing (rapid) with exhaustive fault-position enumeration per generated case",
         tests=[dict(name="TestSinkFaults", quick=(8, 120), thorough=(16, 1500)),
-               dict(name="TestLakeLoadFaults", quick=(4, 10), thorough=(8, 150))],
+               dict(name="TestLakeLoadFaults", quick=(4, 10), thorough=(8, 40))],
 )
